@@ -150,8 +150,50 @@ func (c *Ctx) withMailboxClosures(withMailbox *ssa.Function) map[*ssa.Function]s
 	p := c.P
 	out := map[*ssa.Function]string{}
 	var lm *mbLockModel
-	if fMu := p.MutexField("pkg/storage/mem", "mbox"); fMu != nil {
+	fMu := p.MutexField("pkg/storage/mem", "mbox")
+	if fMu != nil && withMailbox != nil {
 		lm = c.mbLocks(withMailbox, fMu)
+	}
+	// self-locking functions: the design in which each mailbox operation takes the mailbox
+	// lock itself (mb.Lock(); defer mb.Unlock()) — the function body from the acquisition on
+	// runs under the lock, in the mode of the acquisition
+	if fMu != nil {
+		ops := opsFor(fMu)
+		for _, fn := range pkgFuncs(p, "pkg/storage/mem") {
+			if fn == withMailbox || lm != nil && lm.acquirers[fn] {
+				continue
+			}
+			nAcq, nW := 0, 0
+			eng.EachInstr(fn, func(in ssa.Instruction) {
+				if ops.isAcq(in) {
+					nAcq++
+					if ops.isWriteAcq(in) {
+						nW++
+					}
+				}
+			})
+			if nAcq == 0 {
+				continue
+			}
+			// released on every exit
+			var acq ssa.Instruction
+			eng.EachInstr(fn, func(in ssa.Instruction) {
+				if ops.isAcq(in) && acq == nil {
+					acq = in
+				}
+			})
+			if (&eng.Search{Target: eng.IsReturnOf(fn), Avoid: ops.isRel}).After(acq) != nil {
+				continue
+			}
+			if nW == nAcq {
+				out[fn] = "w"
+			} else {
+				out[fn] = "r"
+			}
+		}
+	}
+	if withMailbox == nil {
+		return out
 	}
 	merge := func(g *ssa.Function, mode string) {
 		if old, has := out[g]; has && old != mode {
@@ -254,9 +296,9 @@ func (c *Ctx) c09Mem(pm *pairModel) {
 	fBoxes := p.Field("pkg/storage/mem", "Store", "boxes")
 	fMutex := p.MutexField("pkg/storage/mem", "Store")
 	fMbMu := p.MutexField("pkg/storage/mem", "mbox")
-	withMailbox := p.Method("pkg/storage/mem", "Store", "withMailbox")
+	withMailbox := p.OptMethod("pkg/storage/mem", "Store", "withMailbox")
 	mboxT := p.Named("pkg/storage/mem", "mbox")
-	if fBoxes == nil || fMutex == nil || fMbMu == nil || withMailbox == nil || mboxT == nil {
+	if fBoxes == nil || fMutex == nil || fMbMu == nil || mboxT == nil {
 		return
 	}
 	storeOps := opsFor(fMutex)
@@ -359,10 +401,24 @@ func (c *Ctx) c09Mem(pm *pairModel) {
 					}
 				}
 			}
-			if !in2 && fn == withMailbox && alwaysHeld(fn, in, mbOps, mbOps.isAcq) {
+			selfLocks := false
+			eng.EachInstr(fn, func(x ssa.Instruction) {
+				if mbOps.isAcq(x) {
+					selfLocks = true
+				}
+			})
+			if selfLocks && fn != withMailbox {
+				// a function that takes the mailbox lock itself: the access must lie between
+				// its acquisition and release
+				in2 = alwaysHeld(fn, in, mbOps, mbOps.isAcq)
+				if in2 && mode == "" {
+					mode = "r"
+				}
+			}
+			if !in2 && withMailbox != nil && fn == withMailbox && alwaysHeld(fn, in, mbOps, mbOps.isAcq) {
 				in2 = true // withMailbox itself, between taking and releasing the mailbox lock
 			}
-			if !in2 && fn.Parent() == withMailbox {
+			if !in2 && withMailbox != nil && fn.Parent() == withMailbox {
 				// the deferred closure of withMailbox that releases the mailbox lock: the lock
 				// is held from its start up to the release
 				for _, d := range eng.Defers(withMailbox) {
@@ -424,11 +480,47 @@ func (c *Ctx) c09Mem(pm *pairModel) {
 		r.Bad("C09/GUARD/mem", k, parts[0], "%s", parts[1])
 	}
 	if len(bad) == 0 {
-		r.Ok("C09/GUARD/mem", "mbox-fields", p.Pos(withMailbox.Pos()), "%d accesses of mem.mbox fields, all inside withMailbox closures, writes only under writeLock=true (%d closures)", nAcc, len(modes))
+		r.Ok("C09/GUARD/mem", "mbox-fields", "", "%d accesses of mem.mbox fields, all with the mailbox lock held (inside withMailbox closures or in functions that take it themselves), writes only under the write lock (%d locked functions)", nAcc, len(modes))
 	}
 	r.Floor("C09/GUARD/mem", "accesses of mem.mbox fields", nAcc, 1)
 	r.Floor("C09/GUARD/mem", "closures passed to withMailbox", len(modes), 1)
-	// (c) withMailbox shape
+	// (c) lock order and release, whatever the design: the mailbox lock is never acquired while
+	// the store mutex is held (the enforcer and the visitor take them in the other order), and
+	// whoever acquires it releases it on every exit
+	if withMailbox == nil {
+		shapeOK, why := true, ""
+		nAcq := 0
+		for _, fn := range fns {
+			fn := fn
+			eng.EachInstr(fn, func(in ssa.Instruction) {
+				if !mbOps.isAcq(in) {
+					return
+				}
+				nAcq++
+				if !neverHeld(fn, in, storeOps) {
+					shapeOK, why = false, "mailbox lock is taken at "+p.InstrPos(in)+" while the store mutex is held (lock-order inversion with the enforcer/visitor)"
+				}
+				for _, cs := range p.StaticCallSites(fn) {
+					site := cs.Instr.(ssa.Instruction)
+					if !neverHeld(site.Parent(), site, storeOps) {
+						shapeOK, why = false, "mailbox lock is taken (in "+shortFn(fn)+", called at "+p.InstrPos(site)+") while the store mutex is held"
+					}
+				}
+				if ret := (&eng.Search{Target: eng.IsReturnOf(fn), Avoid: mbOps.isRel}).After(in); ret != nil {
+					shapeOK, why = false, "the mailbox lock taken at "+p.InstrPos(in)+" is not released on the path to "+p.InstrPos(ret)
+				}
+			})
+		}
+		if nAcq == 0 {
+			shapeOK, why = false, "the mailbox lock is never acquired"
+		}
+		if shapeOK {
+			r.Ok("C09/GUARD/mem", "withMailbox-shape", "", "%d acquisitions of the mailbox lock, none under the store mutex, each released on every exit", nAcq)
+		} else {
+			r.Bad("C09/GUARD/mem", "withMailbox-shape", "", "%s", why)
+		}
+		return
+	}
 	var fcall ssa.Instruction
 	eng.EachInstr(withMailbox, func(in ssa.Instruction) {
 		if call, ok := in.(*ssa.Call); ok {
@@ -530,8 +622,8 @@ func derivesFromParamNamed(v ssa.Value, fn *ssa.Function, _ string) bool {
 func (c *Ctx) c09Shared(pm *pairModel) {
 	r, p := c.R, c.P
 	msgT := p.Named("pkg/storage/mem", "Message")
-	withMailbox := p.Method("pkg/storage/mem", "Store", "withMailbox")
-	if msgT == nil || withMailbox == nil {
+	withMailbox := p.OptMethod("pkg/storage/mem", "Store", "withMailbox")
+	if msgT == nil {
 		return
 	}
 	modes := c.withMailboxClosures(withMailbox)
@@ -631,14 +723,15 @@ func (c *Ctx) c09Shared(pm *pairModel) {
 
 func (c *Ctx) c09NoBlock(pm *pairModel) {
 	r, p := c.R, c.P
-	withMailbox := p.Method("pkg/storage/mem", "Store", "withMailbox")
-	if withMailbox == nil {
-		return
-	}
+	withMailbox := p.OptMethod("pkg/storage/mem", "Store", "withMailbox")
 	modes := c.withMailboxClosures(withMailbox)
+	var ownAcq func(in ssa.Instruction) bool
 	blocking := func(fn *ssa.Function) string {
 		why := ""
 		eng.EachInstr(fn, func(in ssa.Instruction) {
+			if ownAcq != nil && ownAcq(in) {
+				return
+			}
 			switch x := in.(type) {
 			case *ssa.Send:
 				why = "channel send at " + p.InstrPos(in)
@@ -663,8 +756,17 @@ func (c *Ctx) c09NoBlock(pm *pairModel) {
 		names = append(names, g)
 	}
 	sort.Slice(names, func(i, j int) bool { return names[i].String() < names[j].String() })
+	fMbMuNB := p.MutexField("pkg/storage/mem", "mbox")
 	for _, g := range names {
+		g := g
 		reach := p.ReachModule(g)
+		// a function that takes the mailbox lock itself: that acquisition is the lock, not a
+		// blocking operation under it
+		ownAcq = nil
+		if fMbMuNB != nil {
+			mo := opsFor(fMbMuNB)
+			ownAcq = func(in ssa.Instruction) bool { return in.Parent() == g && mo.isAcq(in) }
+		}
 		var whys []string
 		for f := range reach {
 			if eng.FuncPkgPath(f) != eng.Mod+"/pkg/storage/mem" {
